@@ -390,7 +390,11 @@ func (i *Input) GetUtxo() *transaction.TxOutput {
 		utxo = i.NonWitnessUtxo.Outputs[i.PreviousTxIndex]
 	}
 	if utxo != nil {
-		utxo.RangeProof = i.UtxoRangeProof
+		// hand out a copy carrying the range proof: a getter must not write
+		// into the UTXO stored in the packet
+		withProof := *utxo
+		withProof.RangeProof = i.UtxoRangeProof
+		return &withProof
 	}
 	return utxo
 }
@@ -934,7 +938,7 @@ func (i *Input) getKeyPairs() ([]KeyPair, error) {
 		kp := KeyPair{
 			Key: Key{
 				KeyType: InputTapScriptSig,
-				KeyData: append(tapScriptSig.PubKey, tapScriptSig.LeafHash...),
+				KeyData: append(append([]byte{}, tapScriptSig.PubKey...), tapScriptSig.LeafHash...),
 			},
 			Value: tapScriptSig.Signature,
 		}
@@ -952,7 +956,7 @@ func (i *Input) getKeyPairs() ([]KeyPair, error) {
 				KeyType: InputTapLeafScript,
 				KeyData: controlBlockBytes,
 			},
-			Value: append(tapLeafScript.Script, byte(tapLeafScript.LeafVersion)),
+			Value: append(append([]byte{}, tapLeafScript.Script...), byte(tapLeafScript.LeafVersion)),
 		}
 		keyPairs = append(keyPairs, kp)
 	}
